@@ -170,8 +170,9 @@ def run_verus_unit(uid, tier='quick', keep=True):
                 if gen.origin[l - 1][0] == 'repo':
                     src_line = gen.lines[l - 1].strip()
                     break
+            fn_repo_text = ' '.join(gen.lines[l - 1].strip() for l in range(rng[0], rng[1] + 1) if gen.origin[l - 1][0] == 'repo')
             res['failures'].append(dict(obligation=target['id'], function=fn, kind=target['kind'], message=d['message'],
-                                        gen_line=pl, repo_loc=loc, source_text=src_line, clause=target['text'],
+                                        gen_line=pl, repo_loc=loc, source_text=src_line, clause=target['text'], function_repo_text=fn_repo_text,
                                         rendered=d.get('rendered', '')))
         # obligations of a failing function that were not identified as failed are not established
         for o in obls:
